@@ -268,3 +268,94 @@ def guard_fn(text, features):
     return ("fn match_exhaustiveness_guard(match_expr: &MatchExpression, detached_source: Value, base_env: Environment, p: &Interpreter) -> (res: Option<()>)\n"
             "  ensures res.is_some() ==> (has_wildcard(*match_expr) || (missing(*match_expr, detached_source) is Some && missing(*match_expr, detached_source).unwrap().1@.len() == 0)),\n"
             "    has_wildcard(*match_expr) ==> res.is_some(),\n{\n" + b + "\n  Some(())\n}\n")
+
+
+# ---------------------------------------------------------------------------------------------------------------------
+# `match` expressions: the arm loop of match_expression
+MATCH_LOCALS = ['source', 'detached_source', 'reference', 'base_env', 'var', 'arm', 'enum_name', 'missing_patterns', 'passed_guard', 'guard', 'arm_ix',
+                'guard_env', 'matched', 'wildcard_arm', 'wildcard_passed', 'fallback', 'coalesced', 'output']
+MATCH_ENS = """  ensures ({
+    let arms = match_expr.arms@;
+    // k: the first arm, in source order, whose pattern matches the source value and whose guard is true (or whose test fails with an error)
+    let k = first_hit(arms, detached_source, base_env, 0);
+    !quirk_before(arms, detached_source, base_env, k) ==> {
+      // no arm is taken: an error, and no body was evaluated
+      &&& (k == arms.len() ==> res is Err && evals_only(final(p).log@, old(p).log@.len() as int, None))
+      &&& (k < arms.len() && !special(detached_source, arms[k]) ==> {
+            let arm = arms[k];
+            // the only body evaluated is that of arm k (no later arm runs), and at most arms 0..=k were tested
+            &&& evals_only(final(p).log@, old(p).log@.len() as int, Some(arm.expression))
+            &&& final(p).log@.len() <= old(p).log@.len() + 2 * (k + 1) + 1
+            &&& (arm_hit(arm, detached_source, base_env) is None ==> res is Err)
+            // the value is that of arm k's body under the bindings of its pattern
+            &&& (arm_hit(arm, detached_source, base_env) == Some(true) ==> (match ev(arm.expression, arm_env(arm, detached_source, base_env)) {
+                    None => res is Err,
+                    Some(v) => if kinds_ok(arms, k, kind_of(v), detached_source, base_env) { res matches Ok(o) && o == v } else { res is Err },
+                  }))
+          })
+    }
+  }),
+"""
+MATCH_INV = """      invariant
+        first_hit(match_expr.arms@, detached_source, base_env, 0) == first_hit(match_expr.arms@, detached_source, base_env, IX as int),
+        old(p).log@.len() <= p.log@.len() <= old(p).log@.len() + 2 * CNT,
+        evals_only(p.log@, old(p).log@.len() as int, None),
+"""
+
+
+def _match_model():
+    import os
+    return open(os.path.join(os.path.dirname(os.path.dirname(os.path.abspath(__file__))), "contracts", "C16", "matchmodel.rs")).read() + """
+#[verifier::external_body]
+pub fn special_case(p: &mut Interpreter) -> (o: Option<Result<Value, MechError>>) { unimplemented!() }
+"""
+
+
+def match_arms_fn(text, features):
+    """the arm loop of `match_expression` (src/interpreter/src/expressions.rs), from `for (arm_ix, arm) in match_expr.arms.iter().enumerate()` to the
+    end of the function, onto contracts/C16/matchmodel.rs; `detached_source` and `base_env` (computed above the loop) become parameters.
+      E1  loop header -> `for arm_ix in 0..match_expr.arms.len() { let arm = &match_expr.arms[arm_ix];` (`.rev()` -> descending positions)
+      E2  `crate::patterns::` path prefixes dropped
+      E3  `#[cfg(..)]` attributes evaluated (default features); the option/matrix coalescing block
+          `if value_contains_empty(&detached_source) && is_identity_option_matrix_arm(arm) { .. }` -> `if is_special(&detached_source, arm) { if let Some(r) = special_case(p) { return r; } }`
+          (its body is abstracted but keeps its ability to return; nothing is claimed for arms in that case)
+      E4  the final `Err(MechError::new(MatchNoArmMatchedError, ..)..)` -> `Err(no_arm_matched_error())`"""
+    sig, body = extract_fn(text, "match_expression")
+    b0 = re.sub(r"//[^\n]*", "", body[body.index("{") + 1:body.rindex("}")]).replace("\r", "")
+    b0 = vlib.canon_bindings(sig, b0, ["match_expr", "env", "p"], MATCH_LOCALS)
+    HDR = r"for\s+\(arm_ix,\s*arm\)\s+in\s+match_expr\.arms\.iter\(\)\.enumerate\(\)(\.rev\(\))?\s*\{"
+    mh = find_code(b0, HDR)
+    if not mh:
+        raise AnchorLost("match_expression: the loop over match_expr.arms not found")
+    # the unit starts after the Empty pre-check above the loop, so that declarations hoisted out of the loop are seen
+    start = mh.start()
+    mp = find_code(b0, r"if\s+value_contains_empty\(\s*&detached_source\s*\)\s*&&\s*!\s*has_identity_wildcard_coalesce_arms\(\s*match_expr\s*\)\s*\{")
+    if mp and mp.end() < mh.start():
+        start = match_brace(b0, mp.end() - 1)
+    b = b0[start:]
+    b = apply_cfg(b, features)
+    b = b.replace("crate::patterns::", "")
+    # E3
+    ms = find_code(b, r"if\s+value_contains_empty\(\s*&detached_source\s*\)\s*&&\s*is_identity_option_matrix_arm\(\s*arm\s*\)\s*\{")
+    if ms:
+        e = match_brace(b, ms.end() - 1)
+        b = b[:ms.start()] + "if is_special(&detached_source, arm) { if let Some(r) = special_case(p) { return r; } }" + b[e:]
+    # E4
+    mt = list(re.finditer(r"\bErr\s*\(\s*MechError::new\(\s*MatchNoArmMatchedError", b))
+    if len(mt) != 1:
+        raise AnchorLost("match_expression: the final MatchNoArmMatchedError not found")
+    e = match_brace(b, mt[0].start() + b[mt[0].start():].index("("), "(", ")")
+    b = b[:mt[0].start()] + "Err(no_arm_matched_error())" + b[e:]
+    mh = re.search(HDR, b)
+    GH = "proof { lemma_first_hit(match_expr.arms@, detached_source, base_env, arm_ix as int); lemma_first_hit(match_expr.arms@, detached_source, base_env, arm_ix + 1); }"
+    if mh.group(1):
+        hdr = ("for r_ in 0..match_expr.arms.len()\n" + MATCH_INV.replace("IX", "(match_expr.arms.len() - r_)").replace("CNT", "r_")
+               + "    { let arm_ix = match_expr.arms.len() - 1 - r_; let arm = &match_expr.arms[arm_ix];\n        " + GH)
+    else:
+        hdr = ("for arm_ix in 0..match_expr.arms.len()\n" + MATCH_INV.replace("IX", "arm_ix").replace("CNT", "arm_ix")
+               + "    { let arm = &match_expr.arms[arm_ix];\n        " + GH)
+    b = b[:mh.start()] + hdr + b[mh.end():]
+    if re.search(r"\b(MechError|value_contains_empty|is_identity_option_matrix_arm|cfg|crate)\b", b):
+        raise AnchorLost("match_expression: the arm loop is outside the transcription rules")
+    return ("fn match_arms(match_expr: &MatchExpression, detached_source: Value, base_env: Environment, p: &mut Interpreter) -> (res: Result<Value, MechError>)\n"
+            + MATCH_ENS + "{\n    proof { lemma_first_hit(match_expr.arms@, detached_source, base_env, 0); }\n" + b + "\n}\n")
